@@ -1,8 +1,8 @@
 (* Css/CssDim.v — F2 model of how css.go rewrites the numeric tokens of a declaration value (minifyTokens, cases NumberToken,
    PercentageToken, DimensionToken; minifyDimension; minifyNumber): the number part goes through minify.Number, or with
    KeepCSS2 through minify.Decimal (the mantissa only when the number has an exponent), the unit is found by scanning ASCII
-   letters from the end and is lower-cased, and a unit in optionalZeroDimension is dropped when the shortened number starts
-   with the digit 0 (outside flex and outside functions).  Precision 0.
+   letters from the end and is lower-cased, and a unit in optionalZeroDimension is dropped when the shortened token is the
+   digit 0 followed by its unit (outside flex and outside functions).  Precision 0.
    No proofs in this file; extracted and compared with css.Minify on every run. *)
 From MV Require Import Base.MvBytes Num.NumModel.
 
@@ -47,7 +47,24 @@ Definition percentage_token (keep_css2 : bool) (data : bytes) : bytes :=
    "xx"), so the drop is missed for most zeros that were not already written `0`.  Keeping the unit is always correct, so
    the model takes what the implementation did as an input ([impl_drops], read off the real output by the correspondence
    check) and allows a drop only under the stated condition; the theorems hold for either value. *)
+(* isZeroNumber: the digit 0 followed by nothing but a unit (a number that minify.Number gave back unchanged because its
+   exponent is out of range can start with 0 without being zero) *)
+Definition is_zero_number (b : bytes) : bool :=
+  match b with
+  | [] => false
+  | c0' :: r =>
+    if negb (c0' =? 48) then false else
+    match r with
+    | [] => true
+    | c :: r2 =>
+      if ((48 <=? c) && (c <=? 57)) || (c =? 46) then false
+      else if ((c =? 101) || (c =? 69)) &&
+              match r2 with d :: _ => ((48 <=? d) && (d <=? 57)) || (d =? 43) || (d =? 45) | [] => false end then false
+      else true
+    end
+  end.
+
 Definition dimension_token (keep_css2 : bool) (optional_zero : bytes -> bool) (flex_or_function impl_drops : bool) (data : bytes) : bytes :=
   let (num, dim) := split_dimension data in
   let d := css_number keep_css2 num ++ dim in
-  if (1 <? zlen d) && (nth 0 d 0 =? 48) && optional_zero dim && negb flex_or_function && impl_drops then [48] else d.
+  if (1 <? zlen d) && is_zero_number d && optional_zero dim && negb flex_or_function && impl_drops then [48] else d.
